@@ -219,7 +219,10 @@ static void runBounds(const LCase& lc, Ctx& ctx)
       if (c.order < 0)
       {
         LD tolV = (LD)ek * t.S.scaleV[(size_t)v] + floorV(t.S, P.eta, v);
-        if ((LD)s * s > t.S.C00(v, v) + tolV)
+        // a-priori variance: sigma00 of the model; for a block the library's documented estimate of it (mean
+        // covariance between the regular and a randomised discretisation), which oscillating structures can
+        // make slightly negative: the variance is then reported as 0, which exceeds no true variance
+        if ((LD)s * s > std::max((LD)0, t.S.C00(v, v)) + tolV)
         {
           ctx.fail(c.key("stdev-prior"), fmt("simple kriging, target %d var %d: stdev^2 = %.15g exceeds the a-priori variance %.15Lg (tol %.3Lg)", k, v, s * s, t.S.C00(v, v), tolV));
           return;
